@@ -30,6 +30,10 @@ type DebModel struct {
 	DataFiles    []TarFile  `json:"dataFiles"`
 	CtlCodec     string     `json:"ctlCodec"`  // "" gz xz bz2 lzma zst
 	DataCodec    string     `json:"dataCodec"` // same
+	// XZOpt: how xz members are written: "" = preset 1 (1 MiB dictionary), "6" = the default
+	// preset of xz and dpkg-deb (8 MiB), "dict16" / "dict64" = a 16 / 64 MiB dictionary (what
+	// xz -7 / -9 declare) - the stream header states the dictionary size whatever the payload
+	XZOpt string `json:"xzOpt,omitempty"`
 	DebianBinary string     `json:"debianBinary"`
 	Extra        []ArMember `json:"extra,omitempty"`    // additional members
 	ExtraPos     int        `json:"extraPos,omitempty"` // 0: after data, 1: between control and data
@@ -131,6 +135,23 @@ func compress(codec string, data []byte) ([]byte, error) {
 	return nil, fmt.Errorf("HARNESS: unknown codec %q", codec)
 }
 
+func compressXZ(data []byte, opt string) ([]byte, error) {
+	if !haveTool("xz") {
+		return nil, codecUnavailable{"xz"}
+	}
+	arg := map[string]string{"6": "-6", "dict16": "--lzma2=preset=0,dict=16MiB", "dict64": "--lzma2=preset=0,dict=64MiB"}[opt]
+	if arg == "" {
+		arg = "-1"
+	}
+	cmd := exec.Command("xz", "-T1", "-c", arg)
+	cmd.Stdin = bytes.NewReader(data)
+	out, err := cmd.Output()
+	if err != nil {
+		return nil, codecUnavailable{"xz"}
+	}
+	return out, nil
+}
+
 func tarMemberName(base, codec string) string {
 	if codec == "" {
 		return base + ".tar"
@@ -151,6 +172,9 @@ func buildDeb(m DebModel) ([]byte, []ArMember, error) {
 		return nil, nil, err
 	}
 	comp := func(codec string, data []byte) ([]byte, error) {
+		if codec == "xz" && m.XZOpt != "" {
+			return compressXZ(data, m.XZOpt)
+		}
 		if codec != "gz" || m.GzSplit < 2 || len(data) < m.GzSplit {
 			return compress(codec, data)
 		}
@@ -306,6 +330,13 @@ func genDebModel(t *rapid.T) DebModel {
 	m.DataFiles = genDataFiles(t)
 	m.CtlCodec = rapid.SampledFrom(codecs).Draw(t, "ctlcodec")
 	m.DataCodec = rapid.SampledFrom(codecs).Draw(t, "datacodec")
+	if m.CtlCodec == "xz" || m.DataCodec == "xz" {
+		opts := []string{"", "", "", "", "6", "dict16"}
+		if tier() == "thorough" {
+			opts = append(opts, "dict64")
+		}
+		m.XZOpt = rapid.SampledFrom(opts).Draw(t, "xzopt")
+	}
 	m.Slash = rapid.IntRange(0, 3).Draw(t, "slash") == 0
 	if rapid.IntRange(0, 3).Draw(t, "gzsplit") == 0 {
 		m.GzSplit = rapid.IntRange(2, 4).Draw(t, "gzsplitN")
